@@ -879,6 +879,7 @@ var c10EntrySources = map[string][]string{
 type c10Stats struct {
 	Accepted, Rejected, Panicked int
 	Valid, ValidAccepted         int
+	FirstValidReject             string
 	Muts                         map[string]int
 }
 
@@ -959,6 +960,16 @@ func (r *c10Run) run(e *c10Entry, in []byte, mut string) c10Result {
 		s.Valid++
 		if res.Outcome == "accepted" {
 			s.ValidAccepted++
+		} else {
+			_, derr := e.Decode(in)
+			if msg := fmt.Sprint(derr); strings.Contains(msg, "IPv4 addresses embedded in IPv6") || strings.Contains(msg, "timestamp out of range") {
+				// the source was written by the real encoder from a value that hits one of the two open round-trip
+				// defects (C12/C13 ip-v4-mapped-ipv6, datetime-first-day): not evidence of a collapsed generator
+				s.Valid--
+				c.Dist("valid-source-hits-known-roundtrip-defect")
+			} else if s.FirstValidReject == "" {
+				s.FirstValidReject = fmt.Sprintf("%v on %.300q", derr, in)
+			}
 		}
 	}
 	c.Count(fmt.Sprintf("%x", h), mut != "valid")
@@ -1134,7 +1145,7 @@ func runC10(c *vh.Ctx) {
 		totalRej += s.Rejected
 		c.Res.Notes = append(c.Res.Notes, fmt.Sprintf("%s: accepted=%d rejected=%d panicked=%d valid-sources=%d/%d", n, s.Accepted, s.Rejected, s.Panicked, s.ValidAccepted, s.Valid))
 		if s.Valid > 0 && s.ValidAccepted*10 < s.Valid*3 {
-			c.Report(vh.Finding{Class: "generator-collapse", What: fmt.Sprintf("%s accepts only %d of its %d valid source documents", n, s.ValidAccepted, s.Valid), Check: "self-test", NoInput: true})
+			c.Report(vh.Finding{Class: "generator-collapse", What: fmt.Sprintf("%s accepts only %d of its %d valid source documents (first rejection: %s)", n, s.ValidAccepted, s.Valid, s.FirstValidReject), Check: "self-test", NoInput: true})
 		}
 		if s.Accepted+s.Rejected+s.Panicked > 200 && (s.Accepted == 0 || s.Rejected == 0) {
 			c.Report(vh.Finding{Class: "generator-collapse", What: fmt.Sprintf("%s: accepted=%d rejected=%d — the malformed stream does not straddle the accept/reject boundary", n, s.Accepted, s.Rejected), Check: "self-test", NoInput: true})
